@@ -432,7 +432,7 @@ def run_sequence(ctx, ops, observe=None):
     return (None, mutated)
 
 
-def check_sequence(ctx, ops, tag):
+def check_sequence(ctx, ops, tag, sparse=1.0):
     n0 = len(_inv_fail)
     prob, info = run_sequence(ctx, ops)
     ctx.count("invariant_evals", _inv_evals[0])
@@ -447,7 +447,7 @@ def check_sequence(ctx, ops, tag):
         ctx.violation("store-vs-model", {"ops": ops}, prob)
         del _inv_fail[:]
         return
-    if len(ops) >= 3 and "copy" not in [o[0] for o in ops]:
+    if len(ops) >= 3 and "copy" not in [o[0] for o in ops] and (sparse >= 1.0 or ctx.rng.random() < sparse):
         # the same history once more, reading the store only now and then
         obs = {i for i in range(len(ops)) if ctx.rng.random() < 0.3}
         prob2, info2 = run_sequence(ctx, ops, observe=obs)
@@ -472,13 +472,13 @@ def run(ctx):
             idx += 1
             if not ctx.mine(idx):
                 continue
-            check_sequence(ctx, list(seq), f"exhaustive depth<={depth}")
+            check_sequence(ctx, list(seq), f"exhaustive depth<={depth}", sparse=1.0 if d <= 3 else 0.25)
     ctx.exhaustive[f"all op sequences up to depth {depth} over {len(alpha)} ops (3 species, 2 rules)"] = True
     if not ctx.quick:
         # depth 5 and 6: uniformly sampled sequences over the same alphabet
         for _ in range(40000):
             d = ctx.rng.choice([5, 5, 6])
-            check_sequence(ctx, [ctx.rng.choice(alpha) for _ in range(d)], "sampled depth 5-6")
+            check_sequence(ctx, [ctx.rng.choice(alpha) for _ in range(d)], "sampled depth 5-6", sparse=0.5)
         ctx.count("sampled_deep_sequences", 40000)
     ctx.count("alphabet_size", 0)
     # random long histories
